@@ -14,16 +14,22 @@ Definition pstep (o : option pstr) (p : pstr) : option pstr :=
   Some (match o with None => p | Some e => pmax p e end).
 Definition sstep (o : option level) (l : level) : option level :=
   Some (match o with None => l | Some m => stronger l m end).
-Definition pstr_of (o : option level) : pstr := match o with Some l => PCanon l | None => PEmpty end.
+Definition omax (a b : option level) : option level :=
+  match a, b with
+  | Some x, Some y => Some (stronger x y)
+  | Some x, None => Some x
+  | None, _ => b
+  end.
 
-Lemma pmax_canon a b : pmax (PCanon a) (PCanon b) = PCanon (stronger a b).
-Proof. destruct a, b; reflexivity. Qed.
+(* takesPrecedenceOver only looks at the levels the two strings stand for, whatever their spelling *)
+Lemma lv_pmax a b : doc_level (pmax a b) = omax (doc_level a) (doc_level b).
+Proof. destruct a as [|[]|[]|], b as [|[]|[]|]; reflexivity. Qed.
 
-Lemma pmax_empty_l e : pmax PEmpty e = e.
-Proof. destruct e as [|[]|[]|]; reflexivity. Qed.
+Lemma pmax_lev_or_empty p cur : lev_or_empty cur = true -> lev_or_empty (pmax p cur) = true.
+Proof. destruct p as [|[]|[]|], cur as [|[]|[]|]; cbn; auto. Qed.
 
-Lemma pmax_canon_empty a : pmax (PCanon a) PEmpty = PCanon a.
-Proof. destruct a; reflexivity. Qed.
+Lemma alfs_lv p : access_level_from_string p = option_map acc (doc_level p).
+Proof. destruct p; reflexivity. Qed.
 
 (* the strongest level: it occurs in the list and nothing in the list outranks it *)
 Lemma strongest_fold_spec ls : forall o,
@@ -82,35 +88,25 @@ Proof.
   - reflexivity.
 Qed.
 
-(* folding takesPrecedenceOver over lowercase strings computes the strongest level *)
-Lemma pfold_canon ls : forall o,
-  fold_left pstep (map PCanon ls) (option_map PCanon o) = option_map PCanon (fold_left sstep ls o).
-Proof.
-  induction ls as [|l ls IH]; intros o; cbn [fold_left map]; [reflexivity|].
-  rewrite <- IH. f_equal. destruct o as [m|]; unfold pstep, sstep; cbn [option_map]; [rewrite pmax_canon|]; reflexivity.
-Qed.
-
 Definition plevels (ps : list pstr) : list level := flat_map (fun p => olist (doc_level p)) ps.
 
-Lemma pfold_canon_or_empty ps : forallb canon_or_empty ps = true -> forall o,
-  fold_left pstep ps (Some (pstr_of o)) = Some (pstr_of (fold_left sstep (plevels ps) o)).
+(* folding takesPrecedenceOver over policy strings computes the strongest of their levels *)
+Lemma pfold_levels ps : forall e,
+  option_map doc_level (fold_left pstep ps (Some e)) = Some (fold_left sstep (plevels ps) (doc_level e)).
 Proof.
-  induction ps as [|p ps IH]; intros Hc o; cbn [fold_left plevels flat_map]; [reflexivity|].
-  cbn [forallb] in Hc. apply andb_true_iff in Hc as [Hp Hc].
-  destruct p as [|l|l|]; try discriminate; cbn [doc_level olist app].
-  - unfold pstep at 2. rewrite pmax_empty_l. apply IH, Hc.
-  - cbn [fold_left]. fold (plevels ps). rewrite <- (IH Hc). f_equal.
-    destruct o as [m|]; unfold pstep, sstep, pstr_of; [rewrite pmax_canon|rewrite pmax_canon_empty]; reflexivity.
+  induction ps as [|p ps IH]; intros e; cbn [fold_left plevels flat_map]; [reflexivity|].
+  fold (plevels ps). unfold pstep at 2. rewrite IH, fold_left_app, lv_pmax. do 2 f_equal.
+  destruct (doc_level p) as [l|]; cbn [olist fold_left omax]; [|reflexivity].
+  destruct (doc_level e); reflexivity.
 Qed.
 
-Lemma pfold_canon_or_empty_none ps : forallb canon_or_empty ps = true ->
-  fold_left pstep ps None = match ps with [] => None | _ => Some (pstr_of (strongest (plevels ps))) end.
+Lemma pfold_levels_none ps :
+  option_map doc_level (fold_left pstep ps None)
+  = match ps with [] => None | _ => Some (strongest (plevels ps)) end.
 Proof.
-  destruct ps as [|p ps]; [reflexivity|]. intros Hc. cbn [forallb] in Hc.
-  apply andb_true_iff in Hc as [Hp Hc]. cbn [fold_left]. unfold strongest.
-  destruct p as [|l|l|]; try discriminate; cbn [plevels flat_map doc_level olist app pstep].
-  - apply (pfold_canon_or_empty ps Hc None).
-  - apply (pfold_canon_or_empty ps Hc (Some l)).
+  destruct ps as [|p ps]; [reflexivity|]. cbn [fold_left]. unfold pstep at 2. rewrite pfold_levels.
+  f_equal. unfold strongest. cbn [plevels flat_map]. fold (plevels ps). rewrite fold_left_app. f_equal.
+  destruct (doc_level p); reflexivity.
 Qed.
 
 (* ---- one merge step, seen through lookups ---- *)
@@ -334,22 +330,29 @@ Proof.
     + intros Wa. apply W, W1, Wa.
 Qed.
 
-Lemma load_scalar_canon p : canon_or_empty p = true -> load_scalar p = Some (option_map acc (doc_level p)).
+Lemma load_scalar_lv p : lev_or_empty p = true -> load_scalar p = Some (option_map acc (doc_level p)).
 Proof. destruct p; try discriminate; reflexivity. Qed.
 
-Lemma load_rule_some a r : canonical_rule r = true -> exists a', load_rule (Some a) r = Some a'.
+(* the level loadRules gives the intentions of a service rule *)
+Lemma intention_level pol int : lev_or_empty int = true ->
+  access_level_from_string (intention_of pol int)
+  = Some (acc (match doc_level int with
+               | Some i => i
+               | None => match doc_level pol with Some LRead | Some LWrite => LRead | _ => LDeny end
+               end)).
+Proof. destruct int as [|i|i|]; try discriminate; intros _; [|reflexivity|reflexivity]. destruct pol as [|[]|[]|]; reflexivity. Qed.
+
+Lemma load_rule_some a r : levelled_rule r = true -> exists a', load_rule (Some a) r = Some a'.
 Proof.
-  unfold canonical_rule. intros H. apply andb_true_iff in H as [Hp Hi].
-  destruct (r_pol r) as [|l| |] eqn:Ep; try discriminate.
-  cbn [load_rule]. rewrite Ep. unfold insert_policy_into_radix at 1. cbn [access_level_from_string].
-  destruct (r_kind r); try (eexists; reflexivity).
-  assert (Hc : exists i, intention_of (PCanon l) (r_int r) = PCanon i).
-  { destruct (r_int r) as [|i| |]; try discriminate; [|cbn; eauto].
-    destruct l; cbn; eauto. }
-  destruct Hc as [i ->]. unfold insert_policy_into_radix. cbn [access_level_from_string]. eexists; reflexivity.
+  unfold levelled_rule. intros H. apply andb_true_iff in H as [Hp Hi].
+  assert (Hl : exists l, access_level_from_string (r_pol r) = Some l).
+  { rewrite alfs_lv. unfold has_level in Hp. destruct (doc_level (r_pol r)); [cbn; eauto|discriminate]. }
+  destruct Hl as [l Hl]. cbn [load_rule]. unfold insert_policy_into_radix at 1. rewrite Hl.
+  revert Hi. destruct (r_kind r); intros Hi; try (eexists; reflexivity).
+  unfold insert_policy_into_radix. rewrite (intention_level _ _ Hi). eexists; reflexivity.
 Qed.
 
-Lemma load_fold_some rs : forallb canonical_rule rs = true -> forall a,
+Lemma load_fold_some rs : forallb levelled_rule rs = true -> forall a,
   exists a', fold_left load_rule rs (Some a) = Some a'.
 Proof.
   induction rs as [|r rs IH]; intros H a; cbn [fold_left]; [eauto|].
@@ -630,33 +633,29 @@ Proof. induction ps as [|p ps IH]; intros x; cbn [fold_left]; [reflexivity|]. ap
 Lemma plevels_map {A} (f : A -> pstr) l : plevels (map f l) = flat_map (fun x => olist (doc_level (f x))) l.
 Proof. unfold plevels. rewrite flat_map_concat_map, map_map, <- flat_map_concat_map. reflexivity. Qed.
 
-Lemma canon_pols l : forallb canonical_rule l = true ->
-  map r_pol l = map PCanon (flat_map (fun r => olist (doc_level (r_pol r))) l)
-  /\ forallb canon_or_empty (map r_int l) = true.
-Proof.
-  induction l as [|r l IH]; intros H; [split; reflexivity|].
-  cbn [forallb] in H. apply andb_true_iff in H as [Hr H]. destruct (IH H) as [E1 E2].
-  unfold canonical_rule in Hr. apply andb_true_iff in Hr as [Hp Hi].
-  cbn [map flat_map forallb]. rewrite Hi, E2. split; [|reflexivity].
-  destruct (r_pol r); try discriminate. cbn [doc_level olist app map]. f_equal. exact E1.
-Qed.
-
 Lemma forallb_filter {A} (f g : A -> bool) l : forallb f l = true -> forallb f (filter g l) = true.
 Proof.
   rewrite !forallb_forall. intros H x Hx. apply filter_In in Hx as [Hx _]. apply H, Hx.
 Qed.
 
-Lemma all_rules_canonical ps : forallb canonical ps = true -> forallb canonical_rule (all_rules ps) = true.
+Lemma all_rules_levelled ps : forallb levelled ps = true -> forallb levelled_rule (all_rules ps) = true.
 Proof.
   induction ps as [|p ps IH]; intros H; [reflexivity|].
   cbn [forallb] in H. apply andb_true_iff in H as [Hp H].
-  cbn [all_rules flat_map]. rewrite forallb_app. fold (all_rules ps). rewrite (IH H), andb_true_r.
-  unfold canonical in Hp. apply andb_true_iff in Hp as [_ Hp]. exact Hp.
+  cbn [all_rules flat_map]. rewrite forallb_app. fold (all_rules ps). rewrite (IH H), andb_true_r. exact Hp.
 Qed.
+
+Lemma option_map_map {A B C} (f : A -> B) (g : B -> C) o : option_map g (option_map f o) = option_map (fun x => g (f x)) o.
+Proof. destruct o; reflexivity. Qed.
+
+(* the merged scalar rules need no hypothesis: a string only ever wins when it names a level *)
+Lemma scalar_fold ps : forall cur, lev_or_empty cur = true ->
+  lev_or_empty (fold_left (fun cur p => pmax p cur) ps cur) = true.
+Proof. induction ps as [|p ps IH]; intros cur H; cbn [fold_left]; [exact H|]. apply IH, pmax_lev_or_empty, H. Qed.
 
 Section Merged.
   Variable ps : list policy.
-  Hypothesis Hcanon : forallb canonical ps = true.
+  Hypothesis Hlev : forallb levelled ps = true.
 
   Let rs := all_rules ps.
   Let ctx := fold_left merge_rule rs [].
@@ -664,27 +663,55 @@ Section Merged.
   Lemma ctx_nodup : NoDup (map fst ctx).
   Proof. apply merge_fold_nodup. constructor. Qed.
 
-  Lemma rs_canon k pf n : forallb canonical_rule (matching rs k pf n) = true.
-  Proof. apply forallb_filter, all_rules_canonical, Hcanon. Qed.
+  Lemma rs_lev k pf n : forallb levelled_rule (matching rs k pf n) = true.
+  Proof. apply forallb_filter, all_rules_levelled, Hlev. Qed.
 
   Lemma ctx_pol k pf n :
-    option_map v_pol (lookup (k, pf, n) ctx) = option_map PCanon (eff rs k pf n).
+    option_map (fun v => doc_level (v_pol v)) (lookup (k, pf, n) ctx)
+    = match matching rs k pf n with [] => None | _ => Some (eff rs k pf n) end.
   Proof.
-    unfold ctx. rewrite merge_fold_pol. cbn [alookup option_map].
-    change (keyed rs (k, pf, n)) with (matching rs k pf n).
-    destruct (canon_pols _ (rs_canon k pf n)) as [-> _].
-    apply (pfold_canon _ None).
+    rewrite <- (option_map_map v_pol doc_level). unfold ctx. rewrite merge_fold_pol. cbn [alookup option_map].
+    change (keyed rs (k, pf, n)) with (matching rs k pf n). rewrite pfold_levels_none, plevels_map.
+    unfold eff. destruct (matching rs k pf n); reflexivity.
   Qed.
 
+  Lemma eff_some k pf n : matching rs k pf n <> [] -> exists l, eff rs k pf n = Some l.
+  Proof.
+    intros Hne. assert (Hl := rs_lev k pf n). unfold eff. assert (S := strongest_spec
+      (flat_map (fun r => olist (doc_level (r_pol r))) (matching rs k pf n))).
+    destruct (strongest _) as [l|]; [eauto|]. exfalso.
+    destruct (matching rs k pf n) as [|r l]; [contradiction|].
+    cbn [forallb] in Hl. apply andb_true_iff in Hl as [Hr _]. unfold levelled_rule in Hr.
+    apply andb_true_iff in Hr as [Hp _]. unfold has_level in Hp. cbn [flat_map] in S.
+    destruct (doc_level (r_pol r)); [discriminate|discriminate].
+  Qed.
+
+  Lemma eff_none k pf n : matching rs k pf n = [] -> eff rs k pf n = None.
+  Proof. intros E. unfold eff. rewrite E. reflexivity. Qed.
+
   Lemma ctx_int pf n val : lookup (KService, pf, n) ctx = Some val ->
-    v_int val = pstr_of (strongest (flat_map (fun r => olist (doc_level (r_int r))) (matching rs KService pf n))).
+    doc_level (v_int val) = strongest (flat_map (fun r => olist (doc_level (r_int r))) (matching rs KService pf n)).
   Proof.
     intros L. assert (H := merge_fold_int rs [] pf n). fold ctx in H. rewrite L in H.
     cbn [alookup option_map] in H. change (keyed rs (KService, pf, n)) with (matching rs KService pf n) in H.
-    destruct (canon_pols _ (rs_canon KService pf n)) as [_ Hc].
-    rewrite (pfold_canon_or_empty_none _ Hc) in H.
-    destruct (map r_int (matching rs KService pf n)) eqn:E; [discriminate|]. rewrite <- E in H.
-    rewrite plevels_map in H. congruence.
+    assert (H' := f_equal (option_map doc_level) H). rewrite pfold_levels_none, plevels_map in H'.
+    cbn [option_map] in H'. destruct (map r_int (matching rs KService pf n)) eqn:E; [discriminate|]. congruence.
+  Qed.
+
+  (* the Intentions field of every service entry is empty or names a level *)
+  Lemma ctx_int_lev pf n val : lookup (KService, pf, n) ctx = Some val -> lev_or_empty (v_int val) = true.
+  Proof.
+    assert (G : forall l c, forallb levelled_rule l = true ->
+                (forall pf n val, alookup rkey_eqb (KService, pf, n) c = Some val -> lev_or_empty (v_int val) = true) ->
+                forall pf n val, alookup rkey_eqb (KService, pf, n) (fold_left merge_rule l c) = Some val -> lev_or_empty (v_int val) = true).
+    { induction l as [|r l IH]; intros c Hl Hc pf0 n0 val0; cbn [fold_left]; [apply Hc|].
+      cbn [forallb] in Hl. apply andb_true_iff in Hl as [Hr Hl]. apply IH; [exact Hl|].
+      intros pf' n' val'. rewrite merge_rule_lookup. destruct (rkey_eqb (KService, pf', n') (rule_key r)) eqn:E; [|apply Hc].
+      apply rkey_eqb_eq in E. assert (Hk : r_kind r = KService) by (unfold rule_key in E; congruence).
+      intros [= <-]. unfold levelled_rule in Hr. rewrite Hk in Hr. apply andb_true_iff in Hr as [_ Hri].
+      unfold combine. rewrite Hk. destruct (alookup rkey_eqb (rule_key r) c) as [e|] eqn:Le; [|exact Hri].
+      cbn [v_int]. apply pmax_lev_or_empty. rewrite <- E in Le. apply (Hc _ _ _ Le). }
+    apply (G rs [] (all_rules_levelled ps Hlev)). intros ? ? ? [=].
   Qed.
 
   Lemma merged_ctx : m_rules (fold_left merge_policy ps mctx_init) = ctx.
@@ -692,19 +719,12 @@ Section Merged.
 
   Lemma merged_scalar (f : policy -> pstr) (g : mctx -> pstr) :
     (forall c p, g (merge_policy c p) = merge_scalar (f p) (g c)) -> g mctx_init = PEmpty ->
-    forallb canon_or_empty (map f ps) = true ->
-    g (fold_left merge_policy ps mctx_init) = pstr_of (scalar f ps).
+    doc_level (g (fold_left merge_policy ps mctx_init)) = scalar f ps
+    /\ lev_or_empty (g (fold_left merge_policy ps mctx_init)) = true.
   Proof.
-    intros Hg H0 Hc. rewrite (merge_policies_scalar f g Hg), H0.
-    assert (H := pfold_canon_or_empty _ Hc None). rewrite pfold_some in H. injection H as H.
-    cbn [pstr_of] in H. rewrite H. unfold scalar. rewrite <- plevels_map. reflexivity.
-  Qed.
-
-  Lemma scalars_canon (f : policy -> pstr) :
-    (forall p, canonical p = true -> canon_or_empty (f p) = true) -> forallb canon_or_empty (map f ps) = true.
-  Proof.
-    intros Hf. apply forallb_forall. intros x Hx. apply in_map_iff in Hx as (p & <- & Hp).
-    apply Hf. revert Hp. apply forallb_forall. exact Hcanon.
+    intros Hg H0. rewrite (merge_policies_scalar f g Hg), H0. split; [|apply scalar_fold; reflexivity].
+    assert (H := pfold_levels (map f ps) PEmpty). rewrite pfold_some in H. cbn [option_map] in H.
+    injection H as H. rewrite H. unfold scalar. rewrite <- plevels_map. reflexivity.
   Qed.
 
   (* any policy whose scalars are the merged ones and whose rules are the merged rules in some
@@ -752,30 +772,15 @@ Section Merged.
       apply rules'_in. exists val. split; [exact L|reflexivity].
   Qed.
 
-  (* the Intentions field of every entry is a fold of canonical-or-empty strings *)
-  Lemma ctx_int_canon key val : lookup key ctx = Some val -> canon_or_empty (v_int val) = true.
-  Proof.
-    assert (G : forall l c, forallb canonical_rule l = true ->
-                (forall key val, alookup rkey_eqb key c = Some val -> canon_or_empty (v_int val) = true) ->
-                forall key val, alookup rkey_eqb key (fold_left merge_rule l c) = Some val -> canon_or_empty (v_int val) = true).
-    { induction l as [|r l IH]; intros c Hl Hc key0 val0; cbn [fold_left]; [apply Hc|].
-      cbn [forallb] in Hl. apply andb_true_iff in Hl as [Hr Hl]. apply IH; [exact Hl|].
-      intros key' val'. rewrite merge_rule_lookup. destruct (rkey_eqb key' (rule_key r)); [|apply Hc].
-      intros [= <-]. unfold canonical_rule in Hr. apply andb_true_iff in Hr as [_ Hri].
-      unfold combine. destruct (alookup rkey_eqb (rule_key r) c) as [e|] eqn:Le; [|exact Hri].
-      specialize (Hc _ _ Le).
-      destruct (r_kind r); try (destruct (takes_precedence_over (r_pol r) (v_pol e)); assumption).
-      cbn [v_int]. unfold pmax. destruct (takes_precedence_over (r_int r) (v_int e)); assumption. }
-    apply (G rs [] (all_rules_canonical ps Hcanon)). intros ? ? [=].
-  Qed.
-
-  Lemma rules'_canonical : forallb canonical_rule (p_rules p') = true.
+  Lemma rules'_levelled : forallb levelled_rule (p_rules p') = true.
   Proof.
     apply forallb_forall. intros r Hr. apply rules'_in in Hr as (val & L & E).
-    destruct (rule_key r) as [[k pf] n] eqn:Ek. rewrite E. cbn [entry_rule]. unfold canonical_rule. cbn [r_pol r_int].
-    rewrite (ctx_int_canon _ _ L), andb_true_r.
+    destruct (rule_key r) as [[k pf] n] eqn:Ek. rewrite E. cbn [entry_rule]. unfold levelled_rule. cbn [r_pol r_int r_kind].
     assert (Hp := ctx_pol k pf n). rewrite L in Hp. cbn [option_map] in Hp.
-    destruct (eff rs k pf n) as [l|]; [|discriminate]. injection Hp as ->. reflexivity.
+    apply andb_true_iff. split.
+    - destruct (matching rs k pf n) eqn:M; [discriminate|]. injection Hp as Hp.
+      destruct (eff_some k pf n) as [lv El]; [rewrite M; discriminate|]. unfold has_level. rewrite Hp, El. reflexivity.
+    - destruct k; try reflexivity. apply (ctx_int_lev pf n val L).
   Qed.
 
   Variable a : authorizer.
@@ -811,10 +816,11 @@ Section Merged.
     destruct (lookup (k, pf, n) ctx) as [val|] eqn:L.
     - assert (Hin : In (entry_rule ((k, pf, n), val)) (p_rules p')).
       { apply rules'_in. exists val. split; [exact L|reflexivity]. }
-      destruct (R _ Hin) as [Rk _]. cbn [entry_rule r_kind r_prefix r_name r_pol] in Rk. rewrite Rk.
-      cbn [option_map] in Hp. destruct (eff rs k pf n) as [l|]; [|discriminate]. injection Hp as ->. reflexivity.
+      destruct (R _ Hin) as [Rk _]. cbn [entry_rule r_kind r_prefix r_name r_pol] in Rk. rewrite Rk, alfs_lv.
+      cbn [option_map] in Hp. destruct (matching rs k pf n); [discriminate|]. injection Hp as ->. reflexivity.
     - destruct (N k pf n) as [Nk _]; [rewrite rules'_keys, L; auto|]. rewrite Nk.
-      cbn [option_map] in Hp. destruct (eff rs k pf n); [discriminate|]. destruct k; reflexivity.
+      cbn [option_map] in Hp. destruct (matching rs k pf n) eqn:M; [|discriminate].
+      rewrite (eff_none _ _ _ M). destruct k; reflexivity.
   Qed.
 
   Lemma auth_islot pf n : islot a pf n = option_map acc (eff_int rs pf n).
@@ -827,30 +833,30 @@ Section Merged.
     - assert (Hin : In (entry_rule ((KService, pf, n), val)) (p_rules p')).
       { apply rules'_in. exists val. split; [exact L|reflexivity]. }
       destruct (R _ Hin) as [_ Ri]. specialize (Ri eq_refl).
-      cbn [entry_rule r_kind r_prefix r_name r_pol r_int] in Ri. rewrite Ri.
-      cbn [option_map] in Hp. destruct (eff rs KService pf n) as [s|]; [|discriminate]. injection Hp as ->.
-      rewrite (ctx_int pf n val L).
+      cbn [entry_rule r_kind r_prefix r_name r_pol r_int] in Ri.
+      rewrite Ri, (intention_level _ _ (ctx_int_lev pf n val L)), (ctx_int pf n val L).
+      cbn [option_map] in Hp. destruct (matching rs KService pf n) eqn:M; [discriminate|]. injection Hp as Hp.
+      destruct (eff_some KService pf n) as [s Es]; [rewrite M; discriminate|]. rewrite Hp, Es.
       destruct (strongest _) as [i|]; [reflexivity|]. destruct s; reflexivity.
     - destruct (N KService pf n) as [_ Ni]; [rewrite rules'_keys, L; auto|]. rewrite (Ni eq_refl).
-      cbn [option_map] in Hp. destruct (eff rs KService pf n); [discriminate|]. reflexivity.
+      cbn [option_map] in Hp. destruct (matching rs KService pf n) eqn:M; [|discriminate].
+      rewrite (eff_none _ _ _ M). reflexivity.
   Qed.
 
   Lemma auth_traffic : a_traffic a = [].
   Proof. apply auth_wf. Qed.
 
   Lemma merged_scalars :
-    p_acl p' = pstr_of (scalar p_acl ps) /\ p_keyring p' = pstr_of (scalar p_keyring ps)
-    /\ p_operator p' = pstr_of (scalar p_operator ps) /\ p_mesh p' = pstr_of (scalar p_mesh ps)
-    /\ p_peering p' = pstr_of (scalar p_peering ps).
+    (doc_level (p_acl p') = scalar p_acl ps /\ lev_or_empty (p_acl p') = true)
+    /\ (doc_level (p_keyring p') = scalar p_keyring ps /\ lev_or_empty (p_keyring p') = true)
+    /\ (doc_level (p_operator p') = scalar p_operator ps /\ lev_or_empty (p_operator p') = true)
+    /\ (doc_level (p_mesh p') = scalar p_mesh ps /\ lev_or_empty (p_mesh p') = true)
+    /\ (doc_level (p_peering p') = scalar p_peering ps /\ lev_or_empty (p_peering p') = true).
   Proof.
     rewrite Hacl, Hkeyring, Hoperator, Hmesh, Hpeering. unfold merge_policies, fill.
     cbn [p_acl p_keyring p_operator p_mesh p_peering].
-    repeat split; (apply merged_scalar; [reflexivity|reflexivity|]); apply scalars_canon; intros p Hp;
-      unfold canonical in Hp; repeat (apply andb_true_iff in Hp as [Hp ?]); assumption.
+    split; [|split; [|split; [|split]]]; apply merged_scalar; reflexivity.
   Qed.
-
-  Lemma load_scalar_pstr_of o : load_scalar (pstr_of o) = Some (option_map acc o).
-  Proof. destruct o; reflexivity. Qed.
 
   Lemma auth_scalars :
     a_acl a = option_map acc (scalar p_acl ps) /\ a_keyring a = option_map acc (scalar p_keyring ps)
@@ -858,10 +864,10 @@ Section Merged.
     /\ a_peering a = option_map acc (scalar p_peering ps).
   Proof.
     destruct load_inv as (a1 & _ & _ & _ & _ & L1 & L2 & L3 & L4 & L5).
-    destruct merged_scalars as (E1 & E2 & E3 & E4 & E5).
-    rewrite E1, load_scalar_pstr_of in L1. rewrite E2, load_scalar_pstr_of in L2.
-    rewrite E3, load_scalar_pstr_of in L3. rewrite E4, load_scalar_pstr_of in L4.
-    rewrite E5, load_scalar_pstr_of in L5. repeat split; congruence.
+    destruct merged_scalars as ((E1 & V1) & (E2 & V2) & (E3 & V3) & (E4 & V4) & (E5 & V5)).
+    rewrite (load_scalar_lv _ V1), E1 in L1. rewrite (load_scalar_lv _ V2), E2 in L2.
+    rewrite (load_scalar_lv _ V3), E3 in L3. rewrite (load_scalar_lv _ V4), E4 in L4.
+    rewrite (load_scalar_lv _ V5), E5 in L5. repeat split; congruence.
   Qed.
 End Merged.
 
@@ -896,7 +902,7 @@ Qed.
 (* The authorizer built from a policy list decides every request as the documented rule does;
    this holds for whatever order Go's map iteration hands the merged rules to loadRules. *)
 Theorem policy_authorizer_spec ps p' a :
-  forallb canonical ps = true ->
+  forallb levelled ps = true ->
   p_acl p' = p_acl (merge_policies ps) -> p_keyring p' = p_keyring (merge_policies ps) ->
   p_operator p' = p_operator (merge_policies ps) -> p_mesh p' = p_mesh (merge_policies ps) ->
   p_peering p' = p_peering (merge_policies ps) ->
@@ -906,11 +912,11 @@ Theorem policy_authorizer_spec ps p' a :
 Proof.
   intros Hc H1 H2 H3 H4 H5 HP HL m.
   assert (Rk : forall k, repr (tree_of a k) (eff (all_rules ps) k))
-    by (intros k pf n; apply (auth_kslot ps Hc p' HP a HL)).
+    by (intros k pf n; apply (auth_kslot ps p' HP a HL)).
   assert (Ri : repr (a_intention a) (eff_int (all_rules ps)))
     by (intros pf n; apply (auth_islot ps Hc p' HP a HL)).
   destruct (auth_wf ps p' HP a HL) as (Wk & Wi & Wt).
-  destruct (auth_scalars ps Hc p' H1 H2 H3 H4 H5 a HL) as (S1 & S2 & S3 & S4 & S5).
+  destruct (auth_scalars ps p' H1 H2 H3 H4 H5 a HL) as (S1 & S2 & S3 & S4 & S5).
   assert (Ck := covers_eff (all_rules ps)). assert (Ci := covers_eff_int (all_rules ps)).
   assert (Look : forall k n need, lookup_decide (tree_of a k) n need = dec_of (applicable (eff (all_rules ps) k) n) need)
     by (intros; apply lookup_decide_spec, Rk).
@@ -955,7 +961,7 @@ Qed.
 (* ---- the authorizer exists for every lowercase policy list ---- *)
 
 Lemma load_rules_some ps p' :
-  forallb canonical ps = true ->
+  forallb levelled ps = true ->
   p_acl p' = p_acl (merge_policies ps) -> p_keyring p' = p_keyring (merge_policies ps) ->
   p_operator p' = p_operator (merge_policies ps) -> p_mesh p' = p_mesh (merge_policies ps) ->
   p_peering p' = p_peering (merge_policies ps) ->
@@ -963,13 +969,14 @@ Lemma load_rules_some ps p' :
   exists a, load_rules p' = Some a.
 Proof.
   intros Hc H1 H2 H3 H4 H5 HP. unfold load_rules.
-  destruct (load_fold_some _ (rules'_canonical ps Hc p' HP) authorizer_empty) as [a1 ->].
-  destruct (merged_scalars ps Hc p' H1 H2 H3 H4 H5) as (-> & -> & -> & -> & ->).
-  rewrite !load_scalar_pstr_of. eexists; reflexivity.
+  destruct (load_fold_some _ (rules'_levelled ps Hc p' HP) authorizer_empty) as [a1 ->].
+  destruct (merged_scalars ps p' H1 H2 H3 H4 H5) as ((_ & V1) & (_ & V2) & (_ & V3) & (_ & V4) & (_ & V5)).
+  rewrite (load_scalar_lv _ V1), (load_scalar_lv _ V2), (load_scalar_lv _ V3), (load_scalar_lv _ V4), (load_scalar_lv _ V5).
+  eexists; reflexivity.
 Qed.
 
 Lemma new_policy_authorizer_some ps :
-  forallb canonical ps = true -> exists a, new_policy_authorizer ps = Some a.
+  forallb levelled ps = true -> exists a, new_policy_authorizer ps = Some a.
 Proof. intros Hc. apply (load_rules_some ps (merge_policies ps)); auto. Qed.
 
 Lemma static_decide_spec s m : static_decide s m = spec_default s m.
@@ -1133,7 +1140,7 @@ Qed.
 (* ================================================================ Part 6: packaged statements *)
 
 Theorem semantics ps :
-  forallb canonical ps = true ->
+  forallb levelled ps = true ->
   exists a, new_policy_authorizer ps = Some a
     /\ forall m, policy_decide a m = spec_decide ps m
     /\ forall s, chain_decide a s m = spec_chain ps s m.
@@ -1146,12 +1153,12 @@ Proof.
 Qed.
 
 Theorem order_independent ps ps' a a' :
-  forallb canonical ps = true -> Permutation ps ps' ->
+  forallb levelled ps = true -> Permutation ps ps' ->
   new_policy_authorizer ps = Some a -> new_policy_authorizer ps' = Some a' ->
   forall m, policy_decide a m = policy_decide a' m /\ forall s, chain_decide a s m = chain_decide a' s m.
 Proof.
   intros Hc HP Ha Ha' m.
-  assert (Hc' : forallb canonical ps' = true).
+  assert (Hc' : forallb levelled ps' = true).
   { apply forallb_forall. intros p Hp. revert p Hp. rewrite <- Forall_forall.
     eapply Permutation_Forall; [exact HP|]. apply Forall_forall. apply forallb_forall. exact Hc. }
   destruct (semantics ps Hc) as (b & Hb & Sb). destruct (semantics ps' Hc') as (b' & Hb' & Sb').
@@ -1163,7 +1170,7 @@ Qed.
 
 (* Go's map iteration order in policyRulesMergeContext.fill does not matter *)
 Theorem map_order_independent ps p' a a' :
-  forallb canonical ps = true ->
+  forallb levelled ps = true ->
   p_acl p' = p_acl (merge_policies ps) -> p_keyring p' = p_keyring (merge_policies ps) ->
   p_operator p' = p_operator (merge_policies ps) -> p_mesh p' = p_mesh (merge_policies ps) ->
   p_peering p' = p_peering (merge_policies ps) ->
@@ -1274,4 +1281,17 @@ Proof.
       * split; [discriminate|]. intros [(l & [=] & _)|(pf & n & l & Hp & Hv & Hg)].
         assert (false = true) by (apply H; exists pf, n, l; rewrite Hg; auto). discriminate.
       * split; [discriminate|]. intros [(l & [=] & _) _].
+Qed.
+
+(* every policy PolicyRules.Validate accepts is levelled: the theorems cover all policies that parse *)
+Lemma validate_levelled p : validate p = true -> levelled p = true.
+Proof.
+  unfold validate, levelled. intros H. apply andb_true_iff in H as [_ H].
+  apply forallb_forall. intros r Hr. assert (Hv := proj1 (forallb_forall _ _) H r Hr).
+  unfold rule_valid in Hv. unfold levelled_rule.
+  assert (V : forall s b, is_policy_valid s b = true -> has_level s = true).
+  { intros s b. unfold is_policy_valid, has_level. rewrite alfs_lv. destruct (doc_level s); [reflexivity|discriminate]. }
+  destruct (r_kind r); try (rewrite (V _ _ Hv); reflexivity).
+  apply andb_true_iff in Hv as [Hp Hi]. rewrite (V _ _ Hp). cbn [andb].
+  destruct (r_int r); try reflexivity. cbn in Hi. discriminate.
 Qed.
